@@ -35,6 +35,10 @@ H('k1_errorkind_read_total_and_table', 'wire_tables', ['tarpc/src/util/serde.rs:
 H('k1_errorkind_round_trip', 'wire_tables', ['tarpc/src/util/serde.rs::serialize_io_error_kind_as_u32', 'tarpc/src/util/serde.rs::deserialize_io_error_kind_from_u32'],
   'deserialize(serialize(k)) == k on the 18 portable kinds and Other elsewhere')
 
+H('k1_u128_round_trip_le_bytes', 'trace', ['tarpc/src/trace.rs::u128_serde::serialize', 'tarpc/src/trace.rs::u128_serde::deserialize'],
+  '128-bit ids are written as their 16 little-endian bytes and read back exactly, for every u128')
+H('k6_otel_id_conversions_round_trip', 'trace', ['tarpc/src/trace.rs::From<TraceId> for opentelemetry TraceId (and back)', 'tarpc/src/trace.rs::From<SpanId> for opentelemetry SpanId (and back)', 'tarpc/src/trace.rs::From<SamplingDecision> for TraceFlags'],
+  'trace/span ids survive the OpenTelemetry conversions both ways; sampling decision maps to the sampled flag')
 
 # ---- K3 time arithmetic (C05, C06, C07, C16)
 CLK = ['std::time::Instant::now -> symbolic clock (verif_kani_support::fake_now)']
